@@ -3,6 +3,8 @@
 set -u
 PATCH="$1"; shift
 cd /verif
+export VERIF_EVIDENCE_DIR=/verif/work/seed-evidence   # keep the committed evidence (written by clean-tree runs) untouched
+mkdir -p "$VERIF_EVIDENCE_DIR"
 git -C /repo status --short | grep -q . && { echo "/repo not clean"; exit 2; }
 git -C /repo apply "$PATCH" || { echo "patch does not apply"; exit 2; }
 for c in "$@"; do
